@@ -511,7 +511,7 @@ CVIEWS = ["evalpts", "bbox", "tess", "delta"]
 
 @st.composite
 def _cstep(draw):
-    m = draw(st.sampled_from(["add", "delta", "sample", "edit_element", "translate", "copy_add", "noop", "ops_copy", "delta_dir", "sample_dir", "tessellator"]))
+    m = draw(st.sampled_from(["add", "delta", "sample", "edit_element", "translate", "copy_add", "noop", "ops_copy", "delta_dir", "sample_dir", "tessellator", "edit_handle"]))
     return {"m": m, "views": draw(st.lists(st.sampled_from(CVIEWS + ["tess", "tess"]), min_size=0, max_size=3, unique=True)),
             "n": draw(st.integers(3, 6)), "seed": draw(st.integers(0, 10 ** 6)), "i": draw(st.integers(0, 7)),
             "vec": [draw(st.integers(-16, 16)) / 8.0 for _ in range(3)]}
@@ -636,6 +636,16 @@ def check_container(case, ctx):
             e.ctrlpts = _pts(len(e.ctrlpts), e.dimension, s["seed"])
             seq.append(m)
             dirty |= cached          # whatever the container cached is now out of date unless the container notices
+        elif m == "edit_handle":
+            # the caller edits a member through the handle it kept (the object it handed to the container): a knot inserted in the
+            # middle of the first span.  Whatever the container holds stays a consistent shape (the fresh container is built from the
+            # definitions its members report).
+            h = pool[s["i"] % nxt]
+            kv0, p0, n0 = build.kvs_of(h)[0], build.degrees_of(h)[0], build.sizes_of(h)[0]
+            nxk = min(k for k in kv0 if k > kv0[p0])
+            operations.insert_knot(h, [(kv0[p0] + nxk) / 2.0] + [None] * (h.pdimension - 1), [1] + [0] * (h.pdimension - 1))
+            seq.append(m)
+            dirty |= cached
         elif m == "translate":
             operations.translate(cont, s["vec"][:cont.dimension], inplace=True)
             seq.append(m)
